@@ -81,13 +81,16 @@ def ledger(ctx, taint, rule, scope=None):
             ctx.ok(rule, key, s.where, "%s: discharged by a dominating guard" % s.desc[:160])
             continue
         rk = "|".join(str(k) for k in key)
+        fp = T.guard_fingerprint(s, taint)
+        if fp:
+            rk += "|under:" + fp
         if rk in reviewed:
             stats["reviewed"] += 1
             ctx.ok(rule, key, s.where, "%s: reviewed — %s" % (s.desc[:120], reviewed[rk]))
             continue
         stats["open"] += 1
         ctx.violated(rule, key, s.where, "tainted value reaches a panic site without a guard: %s  [tainted via %s]" % (s.desc[:200], "; ".join(sorted(set(why)))[:160]),
-                     detail={"kind": s.kind, "ops": [show(e)[:300] for e in s.ops]})
+                     detail={"kind": s.kind, "ops": [show(e)[:300] for e in s.ops], "review_key": rk})
     return stats
 
 
